@@ -37,6 +37,8 @@ def generic_shards(ctx, ops):
     g("g32", 32, 32, 160 if q else 330, 31, [1, 2], [0, 1, 31] if q else [0, 1, 2, 15, 16, 17, 30, 31], ["single"])
     if not q:
         g("g16p", 16, 16, 84, 15, [1], [0, 3, 15], ["sparse"])
+    # the bit-level mask formulas of vector.rs (sensible and NEON) implement the lane-set operations the L-models use
+    S.append(("vecops", "MC_VecOps", dict(LANES=7 if q else 8), [], 2))
     return S
 
 
@@ -75,7 +77,7 @@ def byte_search(ctx, ops, verdict_classes):
     gs = generic_shards(ctx, ops)
     ss = swar_shards(ctx, ops)
     res = run_shards(ctx, gs + ss)
-    gvec = C.cat_files([res[s[0]]["vec_path"] for s in gs], os.path.join(ctx.dir, "generic.ndjson"))
+    gvec = C.cat_files([res[s[0]]["vec_path"] for s in gs if s[1] != "MC_VecOps"], os.path.join(ctx.dir, "generic.ndjson"))
     svec = C.cat_files([res[s[0]]["vec_path"] for s in ss], os.path.join(ctx.dir, "swar.ndjson"))
     n1, nt1 = C.collect_arms(ctx, "GenericMemchr", gvec)
     n2, nt2 = C.collect_arms(ctx, "Swar", svec)
@@ -155,6 +157,7 @@ RULE_ITER = ("TLC enumerates every match set of every haystack length within the
 
 def c06(ctx):
     iter_part(ctx, {"result", "panic"})
+    iter_traces(ctx, 150 if ctx.quick else 1500, ops_filter={"next", "next_back"})
     return C.finish(ctx, "model_checking", RULE_ITER)
 
 
@@ -362,6 +365,7 @@ def pp_shards(ctx, emit=True, small=False):
                                       (2, "neon", 2, 3, 5 - d, {0, 1}), (4, "neon", 2, 3, (6 if q else 8) - d, {0, 1}), (2, "sensible", 2, 3, (3 if q else 4) - (1 if d else 0), {0, 1, 2})):
         S.append(("pp%d%s%d" % (vb, mk[0], len(alpha)), "MC_PackedPair",
                   sub(K_PAIR, MASKKIND=mk, VB=vb, Alpha=alpha, MinN=mn, MaxN=mx, Extra=ex, Emit=emit and mk == "sensible"), PP_INV, 4))
+    S.append(("vecops", "MC_VecOps", dict(LANES=7 if q else 8), [], 2))
     return S
 
 
@@ -580,6 +584,31 @@ def lib_traces(ctx, family, kinds, group, count, tag, forces=("avx2", "sse2", "f
             ctx.sample({"from": "recorded trace (%s)" % force, "case": {k: v for k, v in C.record_at(tr, 1).items() if k in ("k", "n", "h")}})
 
 
+def iter_traces(ctx, count, ops_filter=None, forces=("avx2", "sse2", "fallback")):
+    """I->S for iterators: random call histories on long haystacks, validated by Trace_MemchrIter."""
+    binp = C.build_harness()
+    for force in forces:
+        tr = os.path.join(ctx.dir, "iterhist_%s.ndjson" % force)
+        rep, rc, err = C.run_harness(ctx, binp, ["record-iter", "--trace", tr, "--count", count, "--force", force], "rec_iter_" + force)
+        if rep is None:
+            raise ToolError("recorder failed rc=%s: %s" % (rc, err[-1500:]))
+        n, viol, summ = C.validate_trace(ctx, "Trace_MemchrIter", tr, {}, "iterhist_" + force, max_records=max(60, (count * 4) // 12), par=12)
+        for (pp, tup) in viol:
+            if ops_filter and tup[2] not in ops_filter:
+                ctx.note("recorded iterator history: %s disagrees with the model (decided by another property)" % tup[2])
+                continue
+            recd = C.record_at(pp, tup[1])
+            ctx.violation("iterhist:%s:%s:%s" % (force, tup[3], tup[2]),
+                          "recorded history of the %s iterator (%s dispatch): call %d (%s) returned %s or its size_hint does not bracket the remaining matches; the abstract machine disagrees" % (
+                              tup[3], force, tup[4], tup[2], recd["ops"][tup[4] - 1]), {"record": recd})
+        for s_ in summ:
+            ctx.evaluations += s_[3]
+            ctx.add_counters({"iter_history_calls@%s" % force: s_[3], "iter_histories@%s" % force: s_[1]})
+        if n:
+            r1 = C.record_at(tr, 1)
+            ctx.sample({"from": "recorded iterator history", "case": {"e": r1["e"], "n": r1["n"], "hay_len": len(r1["h"]), "ops": r1["ops"][:8]}})
+
+
 def c13(ctx):
     q = ctx.quick
     # design level: the cost-annotated L-models obey an explicit linear bound on every input of the bounded domains
@@ -770,6 +799,7 @@ def c07(ctx):
     byte_search(ctx, ["count"], {"result", "panic"})
     iter_part(ctx, {"count", "panic"})
     lib_traces(ctx, "bytes", "count", "all", 1500 if ctx.quick else 12000, "bytes")
+    iter_traces(ctx, 100 if ctx.quick else 1000, ops_filter={"count"}, forces=("avx2", "fallback"))
     return C.finish(ctx, "model_checking", RULE_BYTES)
 
 
